@@ -117,6 +117,9 @@ func CaseLabels(c *Case, v *VResult) map[string]bool {
 	if c.Cfg.Recover {
 		l["recover"] = true
 	}
+	if c.Cfg.Shadow {
+		l["after-shadow-container"] = true
+	}
 	seenInvoke := false
 	for _, op := range c.Ops {
 		switch op.K {
